@@ -1542,7 +1542,12 @@ class Interp:
         args = []
         for a in n.args:
             if isinstance(a, ast.Starred):
-                args.extend(self.iterate(self.eval(a.value, fr)))
+                sv = self.eval(a.value, fr)
+                if fn is self.builtins.get("zip") and len(n.args) == 1 and getattr(type(sv), "_pyvc_symlen", False) and not sv.concrete_len():
+                    from .zarridx import unzip
+
+                    return unzip(self, sv)
+                args.extend(self.iterate(sv))
             else:
                 args.append(self.eval(a, fr))
         kwargs = {}
